@@ -47,6 +47,8 @@ BOUND = {
                  "group-key tuples"),
 }
 TIME_CAP = {"quick": 480, "thorough": 3000}
+BOUND["quick"] += '; a key whose name contains the names of other entries; operands that are products of deepcopy / filter / map / JSON round trip / modify / a slice (lists of <= 2 items a side, aggregates of <= 3 items); aggregate, in-place move of an item, aggregate again'
+BOUND["thorough"] += "; plus the additions listed for the quick tier"
 
 JOINS = ["left_join", "inner_join", "semi_join", "anti_join", "full_join"]
 KEYVALS = [None, 1, 2]
